@@ -21,7 +21,10 @@ def span (t0 : Int) (calls : List CallRec) : Nat :=
   (mx - mn).toNat
 
 def monitor (t : FwTrace) : Option String :=
-  if t.newRes != .ok && t.newRes != .err then some "Framework::new panicked" else
+  if t.newRes != .ok && t.newRes != .err then
+    some (match t.newRes with
+      | .panic cls => s!"Framework::new panicked: {cls}"
+      | _ => "Framework::new panicked") else
   let rec go (i : Nat) (seen : List CallRec) : List CallRec → Option String
     | [] => none
     | c :: cs =>
